@@ -461,6 +461,8 @@ impl NumCast for Xq {
             Some(Xq::nan_value())
         } else if f.is_infinite() {
             Some(Xq::inf_value(f < 0.0))
+        } else if sym::on() {
+            Some(Xq(sym::mk(Node::Cast(BigRat::from_f64(f)))))
         } else {
             Some(Xq::new(BigRat::from_f64(f)))
         }
@@ -844,6 +846,9 @@ impl approx::RelativeEq for Xq {
 }
 impl approx::UlpsEq for Xq {
     fn default_max_ulps() -> u32 {
+        if sym::on() {
+            return 0x5EED_0004; // sentinel: rendered as `default_max_ulps A` by symgen.py
+        }
         4
     }
     fn ulps_eq(&self, o: &Xq, e: Xq, u: u32) -> bool {
